@@ -153,9 +153,17 @@ fn gen_files() -> Vec<FileSpec> {
         files.push(FileSpec { name, sums, size: Some(size), patch: false });
         i += 1;
     }
-    if sym::choose("patch", 2) == 1 {
+    // zero, one or two patches; two patches get distinct one-byte suffixes in either order
+    let np = sym::choose("patch", 3);
+    if np >= 1 {
         let name = any_name("pn", true, false);
         files.push(FileSpec { name, sums: vec![(dim("palg", 2, a0 / 2) * 5, b"0f".to_vec())], size: None, patch: true });
+    }
+    if np == 2 {
+        let mut name = b"patch-".to_vec();
+        name.extend_from_slice(&sym::any_bytes("pn2", "hex:61-63", 1, 1));
+        sym::assume(!spec::bytes_eq(&name, &files[files.len() - 1].name));
+        files.push(FileSpec { name, sums: vec![(3, b"1e".to_vec())], size: None, patch: true });
     }
     files
 }
